@@ -229,8 +229,11 @@ impl<T: RefCnt, Cfg: Config> CaS<T> for HybridStrategy<Cfg> {
                 .compare_exchange_weak(current.as_raw(), new_raw, SeqCst, Relaxed)
                 .is_ok()
             {
-                // We successfully put the new value in. The ref count went in there too.
-                T::into_ptr(new);
+                // We successfully put the new value in. The ref count went in there too, so it is
+                // no longer ours ‒ someone else might have taken it out and released it by now.
+                // Therefore only forget the handle, don't turn it into the raw pointer (that would
+                // look inside the possibly freed value).
+                core::mem::forget(new);
                 <Self as InnerStrategy<T>>::wait_for_readers(self, old.as_ptr(), storage);
                 // We just got one ref count out of the storage and we have one in old. We don't
                 // need two.
